@@ -95,6 +95,8 @@ pub struct GenCfg {
     ///  resort_after_take  a new sort after a take (C03-take-sort-take-merged)
     ///  sort_by_windowed   sort key that is a windowed column (C07-sort-by-windowed-scope)
     ///  take_far_from_sort  projection / join / windowed step between a sort and its take (C07-sort-column-pruned-before-take)
+    ///  sorted_aggregate  aggregate while a sort is in effect (C04-stale-sort-after-aggregate)
+    ///  multi_take_agg  two takes, then aggregate/group (C07-sort-column-pruned-before-take)
     ///  mul_right       `a * <expr>` with a non-atomic / computed right operand (C02-mul-right-operand-parens)
     pub hazards: Vec<&'static str>,
     /// `/` between two integer-typed operands (excluded under `generic`, whose `/` is the engine's)
@@ -138,6 +140,7 @@ pub struct Gen<'t, 'd> {
     cur_ordered: bool,
     had_group_take: bool,
     had_take: bool,
+    ntakes: usize,
     /// hazards actually generated in this program
     pub touched: Vec<&'static str>,
 }
@@ -223,6 +226,7 @@ impl<'t, 'd> Gen<'t, 'd> {
             cur_ordered: false,
             had_group_take: false,
             had_take: false,
+            ntakes: 0,
             touched: vec![],
         }
     }
@@ -1822,6 +1826,16 @@ impl<'t, 'd> Gen<'t, 'd> {
                 w[4] = 0;
             }
             let append_risky = self.cur_src_let || ord.ordered || !self.simple_so_far;
+            if ord.ordered && !self.haz("sorted_aggregate") {
+                // the sort in effect before an aggregate leaks into later window functions
+                // (finding C04-stale-sort-after-aggregate)
+                w[6] = 0;
+            }
+            if self.ntakes >= 2 && !self.haz("multi_take_agg") {
+                // two takes then aggregate: finding C07-sort-column-pruned-before-take family
+                w[6] = 0;
+                w[7] = 0;
+            }
             if self.had_take && !self.haz("resort_after_take") {
                 // `sort | take | sort | take`: the first sort+take is lost (finding C03-take-sort-take-merged)
                 w[3] = 0;
@@ -1898,6 +1912,7 @@ impl<'t, 'd> Gen<'t, 'd> {
                 3 => self.gen_sort(frame, ord, false),
                 4 => {
                     self.had_take = true;
+                    self.ntakes += 1;
                     Some(self.gen_take())
                 }
                 5 => {
@@ -1907,6 +1922,8 @@ impl<'t, 'd> Gen<'t, 'd> {
                     None
                 }
                 6 => {
+                    if ord.ordered { self.touch("sorted_aggregate"); }
+                    if self.ntakes >= 2 { self.touch("multi_take_agg"); }
                     if self.had_group_take && ord.ordered { self.touch("group_take_sort_agg"); }
                     let (s, cols) = self.gen_aggregate(frame, &[]);
                     *frame = Frame {
@@ -1917,6 +1934,7 @@ impl<'t, 'd> Gen<'t, 'd> {
                     Some(s)
                 }
                 7 => {
+                    if self.ntakes >= 2 { self.touch("multi_take_agg"); }
                     if self.had_group_take && ord.ordered { self.touch("group_take_sort_agg"); }
                     self.gen_group(frame, ord)
                 }
@@ -2074,8 +2092,9 @@ impl<'t, 'd> Gen<'t, 'd> {
         self.simple_so_far = !use_let;
         let saved_gt = self.had_group_take;
         self.had_group_take = false;
-        let saved_t = self.had_take;
+        let saved_t = (self.had_take, self.ntakes);
         self.had_take = false;
+        self.ntakes = 0;
         let more = self.gen_steps(&mut frame, &mut ord, nsteps, depth);
         if self.after_append && !more.is_empty() {
             // anything downstream of a pipeline containing an append may prune its columns
@@ -2085,7 +2104,8 @@ impl<'t, 'd> Gen<'t, 'd> {
         self.after_append = saved.1;
         self.simple_so_far = saved.2;
         self.had_group_take = saved_gt;
-        self.had_take = saved_t;
+        self.had_take = saved_t.0;
+        self.ntakes = saved_t.1;
         let _ = had_append;
         steps.extend(more);
         (Pipeline { source, steps }, frame, ord)
